@@ -237,6 +237,11 @@ func runCase(r *h.Run, c caseT) {
 			srvConns = append(srvConns, cn)
 			cmu.Unlock()
 			if atomic.CompareAndSwapInt32(&addState, 1, 2) {
+				if c.Seed%2 == 0 {
+					// the handler also closes its connection: the close notification is due when
+					// the handler has returned - by then Stop is on its way
+					_ = cn.Close()
+				}
 				<-addGate
 			}
 		})
